@@ -16,6 +16,10 @@ Checking requests (`<op> <args…> => <implementation output>`, answered `model=
   varint <int> => <hex>                    validation of Base/RecWire.varint against the library writers
   wmodel2 <attrs> <now> <recs> => <hex>    Model/RecordWriter.writeV2 ≡ protocol writeToVersion2 (uncompressed)
   lmodel2 <recs-with-ns-times> => <hex>    Model/RecordWriter.legacyBatch ≡ write.go writeRecordBatch
+  wmodel1 / lmodel1                        the v1 writers (protocol writeToVersion1, Conn produce v2), byte-exact
+  wmodel2c / lmodel2c / wmodel1c / lmodel1c <…> <plainhex> => <hex>   the COMPRESSED writers: byte-exact with the
+                                           compressor's output taken from the implementation's bytes, and the
+                                           harness-decompressed payload = the model's uncompressed payload
   pages <holders> <churners> <rounds> => ok   observational page-safety test (held key/value bytes intact while
                                            other decodes recycle pooled pages); Lean side: Props/C05 pages_safe
 Encoding requests (no ` => `; answered with hex or `error`):
@@ -218,6 +222,56 @@ def step (line : String) : String :=
           | none => "error"
         s!"model={h} holds={if h == impl then 1 else 0}"
       | _, _, _ => "bad-op"
+    | ["wmodel2c", attrs, now, recs, plain] =>
+      match attrs.toInt?, now.toInt?, (recs.splitOn ";").mapM parseProd, ofHex plain, ofHex impl with
+      | some attrs, some now, some rs, some plain, some ib =>
+        let comp := ib.drop 61
+        let first := match rs with | [] => 0 | r0 :: _ => Model.RecordWriter.effTime now r0
+        let h := match Model.RecordWriter.writeV2C crcs.castagnoli (fun _ => comp) attrs now rs with
+          | some b => toHex b
+          | none => "error"
+        let inner := Model.RecordWriter.recordsV2 now first 0 rs == plain
+        s!"model={h} holds={if h == impl && inner then 1 else 0}"
+      | _, _, _, _, _ => "bad-op"
+    | ["lmodel2c", code, recs, plain] =>
+      match code.toInt?, (recs.splitOn ";").mapM parseProd, ofHex plain, ofHex impl with
+      | some code, some rs, some plain, some ib =>
+        let comp := ib.drop 61
+        let base := match rs with | [] => 0 | r0 :: _ => r0.time
+        let h := toHex (Model.RecordWriter.legacyBatchC crcs.castagnoli (fun _ => comp) code rs)
+        let inner := Model.RecordWriter.legacyRecordsWith Model.RecordWriter.tsDelta base 0 rs == plain
+        s!"model={h} holds={if h == impl && inner then 1 else 0}"
+      | _, _, _, _ => "bad-op"
+    | ["wmodel1c", attrs, recs, plain] =>
+      match attrs.toInt?, (recs.splitOn ";").mapM parseProd, ofHex plain, ofHex impl with
+      | some attrs, some rs, some plain, some ib =>
+        let comp := ib.drop 34
+        -- the wrapper's timestamp is `time.Now()` at encoding time: read it off the bytes (offset 18)
+        let now : Int := match readI64 (ib.drop 18) with | some (t, _) => t | none => 0
+        let h := toHex (Model.RecordWriter.writeV1C crcs.ieee (fun _ => comp) attrs now rs)
+        let inner := Model.RecordWriter.writeV1 crcs.ieee (attrs - attrs % 8) now 0 rs == plain
+        s!"model={h} holds={if h == impl && inner then 1 else 0}"
+      | _, _, _, _ => "bad-op"
+    | ["wmodel1", attrs, recs] =>
+      match attrs.toInt?, (recs.splitOn ";").mapM parseProd with
+      | some attrs, some rs =>
+        let h := toHex (Model.RecordWriter.writeV1 crcs.ieee attrs 0 0 rs)
+        s!"model={h} holds={if h == impl then 1 else 0}"
+      | _, _ => "bad-op"
+    | ["lmodel1", recs] =>
+      match (recs.splitOn ";").mapM parseProd with
+      | some rs =>
+        let h := toHex (Model.RecordWriter.legacyMessageSet crcs.ieee rs)
+        s!"model={h} holds={if h == impl then 1 else 0}"
+      | none => "bad-op"
+    | ["lmodel1c", code, recs, plain] =>
+      match code.toInt?, (recs.splitOn ";").mapM parseProd, ofHex plain, ofHex impl with
+      | some code, some rs, some plain, some ib =>
+        let comp := ib.drop 34
+        let h := toHex (Model.RecordWriter.legacyWrapper crcs.ieee (fun _ => comp) code rs)
+        let inner := Model.RecordWriter.legacyInner crcs.ieee 0 rs == plain
+        s!"model={h} holds={if h == impl && inner then 1 else 0}"
+      | _, _, _, _ => "bad-op"
     | ["lmodel2", recs] =>
       match (recs.splitOn ";").mapM parseProd with
       | some rs =>
